@@ -13,7 +13,7 @@ CLAIMS = {
              "of the three deques; handler lists iterated as snapshots; sort by priority descending after every "
              "insert; handler kwargs merged after posted kwargs; condition evaluated on the merged kwargs before each "
              "call; completion callback queued once, run only between full drains. Depth-first order for every posting "
-             "tree and exactly-once delivery are not decided. Also: the deque being drained is never the deque posts append to (fresh deque installed before any dispatch); the public wrappers forward event, callback, priority, facility and **kwargs; the stored priority is the caller's plus additive adjustments; the blocking skip needs a strictly higher posted minimum. Also: a handler's condition is evaluated in that handler's own iteration of the dispatch loop (never once ahead of it); the priority sort follows every insertion also through local aliases of the handler list. Also: handler removal scans (remove_handler / by key / by keys) are never left early and match exactly the handler or key asked for; the dispatch loop anchor is a verdict. Also: replace_handler removes exactly the old registrations of that handler (with these kwargs when kwargs are given) and always registers; an event's entry is dropped only when empty; a group of waiters (wait_for_any_event) is removed as a whole by the first that fires. Also: removal by key finds the registration (returned key carries the parsed event name and the stored key); the dispatch loop is left before the last handler only by a boolean event whose handler returned False. Also: when the drained batch runs empty the suspended one is resumed before anything is stacked on it (no emptied batch above a suspended one); the queue runner calls the completion callback at most once on any path.",
+             "tree and exactly-once delivery are not decided. Also: the deque being drained is never the deque posts append to (fresh deque installed before any dispatch); the public wrappers forward event, callback, priority, facility and **kwargs; the stored priority is the caller's plus additive adjustments; the blocking skip needs a strictly higher posted minimum. Also: a handler's condition is evaluated in that handler's own iteration of the dispatch loop (never once ahead of it); the priority sort follows every insertion also through local aliases of the handler list. Also: handler removal scans (remove_handler / by key / by keys) are never left early and match exactly the handler or key asked for; the dispatch loop anchor is a verdict. Also: replace_handler removes exactly the old registrations of that handler (with these kwargs when kwargs are given) and always registers; an event's entry is dropped only when empty; a group of waiters (wait_for_any_event) is removed as a whole by the first that fires. Also: removal by key finds the registration (returned key carries the parsed event name and the stored key); the dispatch loop is left before the last handler only by a boolean event whose handler returned False. Also: when the drained batch runs empty the suspended one is resumed before anything is stacked on it (no emptied batch above a suspended one); the queue runner calls the completion callback at most once on any path. Also: the `.N` priority suffix is the whole text after the dot.",
         technique="who-may-call over a whole-repo use index; CFG dominance/must-pass; deque end discipline; merge-order normalisation",
         ref="4/C01"),
     "C02": dict(
@@ -27,7 +27,7 @@ CLAIMS = {
              "field that a tabled completion method clears, or captured by a clearing callback on every path; the "
              "counting waits clear at zero; event-type tokens and namedtuple indices agree between poster and "
              "dispatcher; QueuedEvent wait/clear typestate. Lost wake-ups of arbitrary user handlers and the "
-             "relative timing of clears are not decided. Also: the handlers' result reaches the completion callback as ev_result, stored before the callback is queued. Also: sufficiency of the boolean abort and the relay merge (nothing but type and result decide); a clearing callback whose registration key is stored per wait is removed only through that key and clears its own queue on every path; the game-end and ball-end stop loops stop every matching mode (no further condition, whole collection, no early exit, bookkeeping before stop()). Also: the queue-event handler loop is never left early (every registered handler is asked before the queue decides); the relay/queue dispatch of _run_handlers merges kwargs and evaluates conditions the same way as the plain dispatch; game and ball stop loops select exactly the modes flagged to stop, with their book-keeping done before the stop is requested. Also: Mode.start touches the queue of the starting event only once the request is accepted (after every refusal exit). Also: the queue-event runner evaluates a handler's condition at that handler's turn, on the merged kwargs; replace_handler registers with the priority it was given. Also: every returning path of the queue-event runner fires the completion callback (also when the handlers vanished before its first step: F21, fixed); the handler list is re-sorted after every insertion (shared with C01).",
+             "relative timing of clears are not decided. Also: the handlers' result reaches the completion callback as ev_result, stored before the callback is queued. Also: sufficiency of the boolean abort and the relay merge (nothing but type and result decide); a clearing callback whose registration key is stored per wait is removed only through that key and clears its own queue on every path; the game-end and ball-end stop loops stop every matching mode (no further condition, whole collection, no early exit, bookkeeping before stop()). Also: the queue-event handler loop is never left early (every registered handler is asked before the queue decides); the relay/queue dispatch of _run_handlers merges kwargs and evaluates conditions the same way as the plain dispatch; game and ball stop loops select exactly the modes flagged to stop, with their book-keeping done before the stop is requested. Also: Mode.start touches the queue of the starting event only once the request is accepted (after every refusal exit). Also: the queue-event runner evaluates a handler's condition at that handler's turn, on the merged kwargs; replace_handler registers with the priority it was given. Also: every returning path of the queue-event runner fires the completion callback (also when the handlers vanished before its first step: F21, fixed); the handler list is re-sorted after every insertion (shared with C01). Also: no loop over the stop callbacks (or any walked container of the analysed functions) changes the container it walks (generic ITERMUT-0).",
         technique="taint of **kwargs into post_queue; CFG must-pass/dominance/facts for wait-clear typestate; table agreement",
         ref="4/C02"),
     "C03": dict(
@@ -41,7 +41,7 @@ CLAIMS = {
              "membership re-checks; due test, delete-after-fire and earliest-deadline rescheduling; a scheduled "
              "wake-up is only replaced after unscheduling it; remove purges both stores with the exact match key; "
              "switch events are posted for the new state. Exactly-once over arbitrary timelines, coincident "
-             "deadlines and recycle windows are not decided. Also: entry points and removal wrappers hand their arguments to the worker unchanged; is_state/is_active/is_inactive compare the logical state and the elapsed ms; the initial hardware read applies NC inversion to every switch of the platform read; switch events are registered for the state their source names; the earliest deadline is armed on every path; no container is mutated while it is iterated. Also: every live handler of the new state is called or armed (exact selection), every due timed handler fires and every fired deadline is forgotten, removal matches exactly (callback, ms), the next wake-up is the running minimum of the pending deadlines, hold-time strings are parsed by the millisecond parser and never rescaled. Also: the raw hardware level (hw_state) is read only where hardware reports are compared (never by logical-state consumers). Also (ignore_window_ms): outside a window a change opens one, books its end and is announced; at the end the window is closed first and the current state announced exactly when it differs from the announced one. Also: loops that act on every registration matching (callback, ms) are left only by exhaustion.",
+             "deadlines and recycle windows are not decided. Also: entry points and removal wrappers hand their arguments to the worker unchanged; is_state/is_active/is_inactive compare the logical state and the elapsed ms; the initial hardware read applies NC inversion to every switch of the platform read; switch events are registered for the state their source names; the earliest deadline is armed on every path; no container is mutated while it is iterated. Also: every live handler of the new state is called or armed (exact selection), every due timed handler fires and every fired deadline is forgotten, removal matches exactly (callback, ms), the next wake-up is the running minimum of the pending deadlines, hold-time strings are parsed by the millisecond parser and never rescaled. Also: the raw hardware level (hw_state) is read only where hardware reports are compared (never by logical-state consumers). Also (ignore_window_ms): outside a window a change opens one, books its end and is announced; at the end the window is closed first and the current state announced exactly when it differs from the announced one. Also: loops that act on every registration matching (callback, ms) are left only by exhaustion. Also: a call that forwards a parameter by name forwards every other parameter the callee shares (the waiter's immediate answer takes the hold time; generic DROP-0).",
         technique="unit (dimension) inference; CFG dominance/guards; feasible-path enumeration; snapshot-iteration rule",
         ref="4/C03"),
     "C08": dict(
@@ -85,7 +85,7 @@ CLAIMS = {
              "default, required ones raise; build_spec deep-copies, a section overrides its bases, nothing but "
              "load_mode_config_spec stores into the shared spec and validation never writes the cached merged spec; "
              "the time-suffix cascade strips len(suffix), has no shadowed branch and the SI multipliers; secs/ms "
-             "sibling validators use the converter of their unit. Type soundness over all YAML values is not decided. Also: no validator falls off its end and None is answered only for an absent value; template validators assert the raw type before building. Also: a validator that checks membership in the declared value set returns the very value it checked; in _validate_config exactly the provided keys are validated and exactly the missing ones defaulted, only `ignore` / private keys are left alone, every key that is not in the spec is rejected; no time string in the repository is parsed in the other unit and rescaled. Also: int() is the outermost (last) operation of string_to_ms / string_to_secs conversions (rounded once). Also: a validator returns the given value unconverted only under an isinstance / predicate test on it; text recognisers used by validators match the whole string. Also: a dict setting reaches key/value validation only as a mapping (the event-list form is for event_handler settings); is_power2 is the bit test on a non-zero number. Also: the colour validator returns exactly three components on every path; event_handler strings are split by the condition-aware splitter. Also: a text recognised by one pattern and cut by another (hex colours) meets a cutter that knows every character the recogniser accepts after the case folding applied.",
+             "sibling validators use the converter of their unit. Type soundness over all YAML values is not decided. Also: no validator falls off its end and None is answered only for an absent value; template validators assert the raw type before building. Also: a validator that checks membership in the declared value set returns the very value it checked; in _validate_config exactly the provided keys are validated and exactly the missing ones defaulted, only `ignore` / private keys are left alone, every key that is not in the spec is rejected; no time string in the repository is parsed in the other unit and rescaled. Also: int() is the outermost (last) operation of string_to_ms / string_to_secs conversions (rounded once). Also: a validator returns the given value unconverted only under an isinstance / predicate test on it; text recognisers used by validators match the whole string. Also: a dict setting reaches key/value validation only as a mapping (the event-list form is for event_handler settings); is_power2 is the bit test on a non-zero number. Also: the colour validator returns exactly three components on every path; event_handler strings are split by the condition-aware splitter. Also: a text recognised by one pattern and cut by another (hex colours) meets a cutter that knows every character the recogniser accepts after the case folding applied. Also: X_or_token validates a plain value like X including the spec's range; no method fills a class-level container (generic SHARED-0: the merged-spec cache stays per validator).",
         technique="table agreement (spec file vs validator table vs signatures); CFG must-pass; who-may-write; suffix-shadowing and constant folding",
         ref="4/C12"),
     "C14": dict(
@@ -100,7 +100,7 @@ CLAIMS = {
              "and remembered-state store is dominated by the CRC-equal and complete-frame sides; CRC8 table equals the "
              "polynomial 0x07 table; OPP resync only on a gen2 address byte, one byte at a time; FAST message "
              "processors apply switch data synchronously (no deferral). Split-invariance as such and switch states "
-             "after arbitrary valid streams are not decided. Also: OPP input bits are the data bytes assembled big-endian and each changed bit is reported once with its index and polarity; every round of a parser loop consumes input; every known frame type is dispatched. Also: every changed OPP input bit is reported (exact selection) and the FAST full switch report is unpacked completely (8 bits per byte, number = offset * 8 + bit, state = that bit). Also: the OPP resync scan regains sync on every gen2 frame start that the in-sync branch dispatches (a command-byte test in the scan must name all of them). Also: every trip of the OPP poll loop sends a poll, also after a timed-out wait; the answer flag is cleared only after an answer. Also: the incremental decoders leave their decode loop only when no complete frame is buffered (or at shutdown), never because of a frame's content. Also: a full FAST switch report is applied with the logical state (raw xor invert) for every switch of the platform whose logical state differs.",
+             "after arbitrary valid streams are not decided. Also: OPP input bits are the data bytes assembled big-endian and each changed bit is reported once with its index and polarity; every round of a parser loop consumes input; every known frame type is dispatched. Also: every changed OPP input bit is reported (exact selection) and the FAST full switch report is unpacked completely (8 bits per byte, number = offset * 8 + bit, state = that bit). Also: the OPP resync scan regains sync on every gen2 frame start that the in-sync branch dispatches (a command-byte test in the scan must name all of them). Also: every trip of the OPP poll loop sends a poll, also after a timed-out wait; the answer flag is cleared only after an answer. Also: the incremental decoders leave their decode loop only when no complete frame is buffered (or at shutdown), never because of a frame's content. Also: a full FAST switch report is applied with the logical state (raw xor invert) for every switch of the platform whose logical state differs. Also: each OPP input reader (initial and running) accepts a report from exactly the cards of the table it takes the card from; every connected chain is registered inside the port loop (generic LASTONLY-0).",
         technique="wake-up/arm agreement of asyncio primitives; who-may-call; CFG guards; slice/length constant agreement; generated CRC table oracle",
         ref="4/C14"),
     "C07": dict(
@@ -117,7 +117,7 @@ CLAIMS = {
              "permanently while being loaded is removed (by stored keys or by callback) when the mode unloads it; "
              "enable/disable idempotence guards read the state they write; active_modes is mutated only by "
              "set_mode_state and sorted by (priority, name) descending after every change. Registry equality for "
-             "arbitrary user mode code and overlapping requests beyond the flag guards are not decided. Also: switch handlers are removed by key; add_mode_event_handler forwards kwargs and returns the key; clear_context loops act on their records. Also: every non-empty result of a start method is recorded as a stop method and every recorded stop method runs unconditionally. Also: the returned EventHandlerKey carries the parsed event name and the stored key; removal by key is exact; mode delays live on the mode's own DelayManager; clear_context never removes handlers by method or by event. Also: the start queue a mode parks is released and forgotten when it has stopped (shared with C02); every clean-up step of a device_removed_from_mode is unconditional or guarded only by the presence of the object it acts on. Also: a config player plays for a mode only while that mode is active, under the mode's own context. Also: the game waits for every active game mode when it stops, also one already stopping. Also: removal of a key list removes every key of the list through the by-key removal.",
+             "arbitrary user mode code and overlapping requests beyond the flag guards are not decided. Also: switch handlers are removed by key; add_mode_event_handler forwards kwargs and returns the key; clear_context loops act on their records. Also: every non-empty result of a start method is recorded as a stop method and every recorded stop method runs unconditionally. Also: the returned EventHandlerKey carries the parsed event name and the stored key; removal by key is exact; mode delays live on the mode's own DelayManager; clear_context never removes handlers by method or by event. Also: the start queue a mode parks is released and forgotten when it has stopped (shared with C02); every clean-up step of a device_removed_from_mode is unconditional or guarded only by the presence of the object it acts on. Also: a config player plays for a mode only while that mode is active, under the mode's own context. Also: the game waits for every active game mode when it stops, also one already stopping. Also: removal of a key list removes every key of the list through the by-key removal. Also: a mode device that owns a delay manager and arms delays clears them on every path of its unload (tabled: timer, ball save, drop target bank with reasons; logic block by required name) - F23 and F24 found by this rule and fixed.",
         technique="event-chain extraction; CFG must-pass typestate; who-may-write; sibling agreement over ConfigPlayer/ModeDevice subclasses",
         ref="4/C07"),
     "C05": dict(
@@ -170,7 +170,7 @@ CLAIMS = {
              "[0, balls known], the ball ends exactly on the positive-to-zero transition or on request; the end-ball flag "
              "is cleared before anything is awaited; players are created only on the non-vetoed add path gated by "
              "ending / max players / ball 1; machine.game is set during the run and cleared on stop. Requests arriving "
-             "inside queue events are only decided as far as these ordering rules go. Also: each game resets the reused mode object's state before anything is awaited; configured end_ball/end_game events are wired to methods that request the end; the wait for the first player is always preceded by a set or a request and released by a completed add. Also: the game end stops and waits for every active game mode (no further condition, whole collection, noted as awaited before stop() is called). Also: an async mode's task is created in _started and cancelled in _stopped and on machine stop; the task's end stops the mode. Also: the drain chain (drain/trough-tagged devices -> ball_drain relay with the unclaimed balls -> Game.ball_drained through the clamping setter, listener registered per ball before the first ball counts); nobody outside the game mode stops the game mode object directly. Also: a request to end the game or the ball is never swallowed (end_game marks and asks for the ball end on every path, end_ball always releases the wait).",
+             "inside queue events are only decided as far as these ordering rules go. Also: each game resets the reused mode object's state before anything is awaited; configured end_ball/end_game events are wired to methods that request the end; the wait for the first player is always preceded by a set or a request and released by a completed add. Also: the game end stops and waits for every active game mode (no further condition, whole collection, noted as awaited before stop() is called). Also: an async mode's task is created in _started and cancelled in _stopped and on machine stop; the task's end stops the mode. Also: the drain chain (drain/trough-tagged devices -> ball_drain relay with the unclaimed balls -> Game.ball_drained through the clamping setter, listener registered per ball before the first ball counts); nobody outside the game mode stops the game mode object directly. Also: a request to end the game or the ball is never swallowed (end_game marks and asks for the ball end on every path, end_ball always releases the wait). Also: every game evaluates balls_per_game and max_players afresh before its first turn.",
         technique="regular event-trace abstraction + language inclusion (product construction); CFG dominance/guards; who-may-write",
         ref="4/C06"),
     "C09": dict(
@@ -184,7 +184,7 @@ CLAIMS = {
              "requires, software fade steps are clamped and end on the target; a running software fade is cancelled "
              "before a newer command takes effect; the batch system records every value it sends and skips only "
              "finished fades equal to the recorded state. Correctness of the suppression shortcuts over histories, "
-             "interpolated values and batching are not decided. Also: colour read from stack[0] and a transparent entry defers to exactly stack[1:]; both colours gamma/colour corrected before the channel split, white = min(r,g,b); set_fade ends in a command for the target or a fade task whose last command is the target; every dirty light ends up in a sent batch, unfinished fades are rescheduled and the scheduler is woken; the blend ratio of a running fade is (t - start) / (end - start), used only where start < t <= end, with the endpoint itself returned outside (interpolation never leaves the endpoints); a new fade starts from the colour shown below the new entry, read before the old entry of the same key is removed. Also: start and target brightness of every channel come from the same formula under the same conditions; a light joins a running batch exactly when it directly succeeds the previous one and a brightness joins the running list exactly within the fade tolerance and batch size; the dirty flag is consumed right after the wake-up; stack scans match the key / opaque entries exactly; each key's fade-out has its own clean-up timer and starts from the colour of the removed key's own layer. Also: the per-key fade timer name is shared by arm and cancel sites; the suppression shortcuts index the remembered (colour, fade, done) tuple by its layout. Also: the handle of the running software fade is written only where fades are started or replaced, never by the fade coroutine. Also: a light uses its own colour-correction profile when it names one, the machine default only otherwise. Also: removing a key that is in the stack always takes its entry out (also while it fades out) and updates the light; the brightness subscription is renewed on every path (generic REARM-0).",
+             "interpolated values and batching are not decided. Also: colour read from stack[0] and a transparent entry defers to exactly stack[1:]; both colours gamma/colour corrected before the channel split, white = min(r,g,b); set_fade ends in a command for the target or a fade task whose last command is the target; every dirty light ends up in a sent batch, unfinished fades are rescheduled and the scheduler is woken; the blend ratio of a running fade is (t - start) / (end - start), used only where start < t <= end, with the endpoint itself returned outside (interpolation never leaves the endpoints); a new fade starts from the colour shown below the new entry, read before the old entry of the same key is removed. Also: start and target brightness of every channel come from the same formula under the same conditions; a light joins a running batch exactly when it directly succeeds the previous one and a brightness joins the running list exactly within the fade tolerance and batch size; the dirty flag is consumed right after the wake-up; stack scans match the key / opaque entries exactly; each key's fade-out has its own clean-up timer and starts from the colour of the removed key's own layer. Also: the per-key fade timer name is shared by arm and cancel sites; the suppression shortcuts index the remembered (colour, fade, done) tuple by its layout. Also: the handle of the running software fade is written only where fades are started or replaced, never by the fade coroutine. Also: a light uses its own colour-correction profile when it names one, the machine default only otherwise. Also: removing a key that is in the stack always takes its entry out (also while it fades out) and updates the light; the brightness subscription is renewed on every path (generic REARM-0). Also: every colour command becomes a stack entry (color / on / off never return before _add_to_stack; arguments handed on); the light player addresses stacks under one key expression, walks every light, records every colour it set and removes exactly those; the update shortcuts read the remembered fade by its stored layout, also through an unpacking.",
         technique="who-may-write; CFG must-pass / definite assignment; guard analysis; unit inference; sibling interface completeness",
         ref="4/C09"),
     "C10": dict(
@@ -199,7 +199,7 @@ CLAIMS = {
              "config_spec defaults: flippers and autofire coils enable exactly on ball_started, flippers/autofires/kickbacks "
              "disable on ball_will_end and service_mode_entered; every X_events key of a device section has an event_X "
              "method and disable outranks enable on the same event; a tilt always ends the ball. Equality of the platform's "
-             "rule table with the enabled set over histories and timeout timing are not decided. Also: the flags that make tilt() return early are reset in Game._run before its first await; the end-ball flag is cleared before any await of _run_ball and end_ball sets it. Also: a running game is ended only through end_game() / end_ball(): no caller stops the game mode directly. Also: the end of a tilt clears the game's tilted flag whenever a game exists, releases a held ball_ending queue and removes the tilt's handlers. Also: sw_release switches the main coil off on every returning path; the tilt switch handlers are registered by every start of the tilt mode (and only there), in the pairs mode_stop removes.",
+             "rule table with the enabled set over histories and timeout timing are not decided. Also: the flags that make tilt() return early are reset in Game._run before its first await; the end-ball flag is cleared before any await of _run_ball and end_ball sets it. Also: a running game is ended only through end_game() / end_ball(): no caller stops the game mode directly. Also: the end of a tilt clears the game's tilted flag whenever a game exists, releases a held ball_ending queue and removes the tilt's handlers. Also: sw_release switches the main coil off on every returning path; the tilt switch handlers are registered by every start of the tilt mode (and only there), in the pairs mode_stop removes. Also: a slam tilt marks the game whenever there is one and goes on to tilt; no extra ball is played on a slam tilted machine.",
         technique="handle-flow pairing; CFG guards/must-pass; who-may-call; config-spec table checks",
         ref="4/C10"),
     "C11": dict(
@@ -218,7 +218,7 @@ CLAIMS = {
              "VariablePlayer.clear_context examines every block entry; which player is addressed: variable_player "
              "writes (var, value) through add/set_with_kwargs to the current player or to player_list[N - 1] for a "
              "configured number N, machine variables only for *_machine actions, and both access paths of the player "
-             "placeholder index player_list[N] after an existence check or read the current player. Also: at turn start every game mode is re-bound (nothing but is_game_mode selects, all modes visited) and the ball-end barrier waits for every game mode that stops at ball end. Also: a new player's variable events are switched on (all values sent) by the completion callback of player_added; score-queue additions are conserved; a lazily remembered selection of a mode device is dropped on every unload path (MEMO-11); the generic mode-start auto-enable is never in effect for a device whose enable() writes persisted enable flags, its own or its members' (RESTORE-11). Also: every clean-up step of a device_removed_from_mode runs whenever the device is unloaded; the per-player restart list is filled at ball end for exactly the active game modes that ask for it, started completely and replaced by an empty list at the player's next ball. Also: the previous value in the change event is the stored value itself (0 only for a new variable); a mode loads its devices with its own player. Also: a new turn resets only the per-ball extra-ball count; the timer's per-run values are set from the configuration at every load; send_all_variable_events posts every simple variable. Also: stopping a mode clears its delays (a delayed control event never reaches the next player's devices); what is stored in a player variable is not a shallow copy or element of an object that outlives the player.",
+             "placeholder index player_list[N] after an existence check or read the current player. Also: at turn start every game mode is re-bound (nothing but is_game_mode selects, all modes visited) and the ball-end barrier waits for every game mode that stops at ball end. Also: a new player's variable events are switched on (all values sent) by the completion callback of player_added; score-queue additions are conserved; a lazily remembered selection of a mode device is dropped on every unload path (MEMO-11); the generic mode-start auto-enable is never in effect for a device whose enable() writes persisted enable flags, its own or its members' (RESTORE-11). Also: every clean-up step of a device_removed_from_mode runs whenever the device is unloaded; the per-player restart list is filled at ball end for exactly the active game modes that ask for it, started completely and replaced by an empty list at the player's next ball. Also: the previous value in the change event is the stored value itself (0 only for a new variable); a mode loads its devices with its own player. Also: a new turn resets only the per-ball extra-ball count; the timer's per-run values are set from the configuration at every load; send_all_variable_events posts every simple variable. Also: stopping a mode clears its delays (a delayed control event never reaches the next player's devices); what is stored in a player variable is not a shallow copy or element of an object that outlives the player. Also: a bonus run starts its total from zero; a new player joins the list in the step that numbered him.",
         technique="who-may-write; CFG must-pass through super() chains; def-use discovery of player-bound attributes; freshness of stored values",
         ref="4/C11"),
     "C15": dict(
@@ -232,7 +232,7 @@ CLAIMS = {
              "record contains every key the loader reads, only persistent variables are written, expired or malformed "
              "records are skipped; FileManager.save is called only by the writer thread. Known finding F6b: nothing waits "
              "for the daemon writer thread at shutdown. Crash points (no fsync reasoning) and value equality after reload "
-             "are not decided. Also: the writer loop runs while the machine is not stopped and writes exactly when the dirty flag was raised; every well-formed, unexpired record is restored and a record is skipped only when malformed or expired. Also: the record fields are updated before the disk write is requested and expiry = now + expire_secs; the temp file location and per-target name; the YAML writer and reader open with the same explicitly named text encoding; the writer threads are told to stop only in MachineController.shutdown, which _do_stop reaches after the `shutdown` event was posted and the queue drained. Also: the shutdown flush depends on nothing but the dirty flag (a busy file manager is waited for); every expiry deadline is wall-clock now + expire_secs and the loader is handed the wall clock. Also: the handler of a failed write only logs (nothing in it can raise and end the writer thread); loading converts exactly maps to dict and sequences to list. Also: every normal way out of the writer thread passes the shutdown flush test; a restarted expiry deadline is written to disk on every path.",
+             "are not decided. Also: the writer loop runs while the machine is not stopped and writes exactly when the dirty flag was raised; every well-formed, unexpired record is restored and a record is skipped only when malformed or expired. Also: the record fields are updated before the disk write is requested and expiry = now + expire_secs; the temp file location and per-target name; the YAML writer and reader open with the same explicitly named text encoding; the writer threads are told to stop only in MachineController.shutdown, which _do_stop reaches after the `shutdown` event was posted and the queue drained. Also: the shutdown flush depends on nothing but the dirty flag (a busy file manager is waited for); every expiry deadline is wall-clock now + expire_secs and the loader is handed the wall clock. Also: the handler of a failed write only logs (nothing in it can raise and end the writer thread); loading converts exactly maps to dict and sequences to list. Also: every normal way out of the writer thread passes the shutdown flush test; a restarted expiry deadline is written to disk on every path. Also: an operator setting's variable is marked persistent before its value is set (the set is what writes).",
         technique="CFG pairing on normal and exceptional paths; order/dominance; dead-guard check; record-key table agreement",
         ref="4/C15"),
     "C16": dict(
@@ -246,7 +246,7 @@ CLAIMS = {
              "and name access add their own subscription, a failed evaluation still subscribes to everything it read; the "
              "events placeholders wait for have the prefix the owners post (player_, machine_var_) and exist in the game; "
              "the config-player subscription loop re-evaluates, re-subscribes with the same binding and ends only on "
-             "cancellation or shutdown. Semantic equivalence over all expressions and freshness over all histories are not decided. Also: boolean operators fold left to right, chained comparisons are refused not truncated, tuple and subscript forms use their evaluated parts, subscriptions of sub-evaluations inside loops are accumulated, failures are never swallowed and are TemplateEvalErrors while subscribing; settings are read and subscribed through the machine variable they live in and every *_placeholder subscription re-arms itself; producer side: set_machine_var stores the new value on every path before posting machine_var_<name>, guarded only by the computed change; the DeviceMonitor setter stores on every path, then notifies under the public attribute name exactly when the attribute already had a different value, and the notification resolves every future filed under (device, attribute) - the key subscribe_attribute files under - before forgetting them. Also: conditions of conditional handlers are evaluated in the handler's own iteration of the dispatch loop; a failed, incomplete or empty evaluation yields the template's default on the plain and the subscribing path, a missing variable is passed on only in strict mode. Also: a setting placeholder takes its value from the settings controller's get_setting_value; PlayerPlaceholder subscriptions are woken by player_turn_started and player_turn_ended. Also: a text with several placeholders is woken by the first of its subscriptions; item and attribute access of a numbered player use the same index, checked against the list length. Also: a player variable posts its change event for every simple value (isinstance) that changed or is new. Also: no function on the evaluation path that is memoised by argument value answers from changeable state (generic MEMO-0).",
+             "cancellation or shutdown. Semantic equivalence over all expressions and freshness over all histories are not decided. Also: boolean operators fold left to right, chained comparisons are refused not truncated, tuple and subscript forms use their evaluated parts, subscriptions of sub-evaluations inside loops are accumulated, failures are never swallowed and are TemplateEvalErrors while subscribing; settings are read and subscribed through the machine variable they live in and every *_placeholder subscription re-arms itself; producer side: set_machine_var stores the new value on every path before posting machine_var_<name>, guarded only by the computed change; the DeviceMonitor setter stores on every path, then notifies under the public attribute name exactly when the attribute already had a different value, and the notification resolves every future filed under (device, attribute) - the key subscribe_attribute files under - before forgetting them. Also: conditions of conditional handlers are evaluated in the handler's own iteration of the dispatch loop; a failed, incomplete or empty evaluation yields the template's default on the plain and the subscribing path, a missing variable is passed on only in strict mode. Also: a setting placeholder takes its value from the settings controller's get_setting_value; PlayerPlaceholder subscriptions are woken by player_turn_started and player_turn_ended. Also: a text with several placeholders is woken by the first of its subscriptions; item and attribute access of a numbered player use the same index, checked against the list length. Also: a player variable posts its change event for every simple value (isinstance) that changed or is new. Also: no function on the evaluation path that is memoised by argument value answers from changeable state (generic MEMO-0). Also: enable() / disable() wake the subscribers of `enabled` whichever way the state is stored (in the method, or in the setter on every path).",
         technique="table oracle against CPython operator semantics; evaluator contract; def-use flow of subscription lists on the CFG",
         ref="4/C16"),
     "C17": dict(
@@ -260,7 +260,7 @@ CLAIMS = {
              "runs before completion events; pause/advance/step_back cancel the pending step first; LightPlayer colours under "
              "key=full_context and clear_context/remove use the same key and record, the light's removal scans are left early "
              "only at the key; ShowPlayer and CoilPlayer clear what they started. k-th step instants under speed updates, "
-             "token substitution and concurrent shows on one light are not decided. Also: played/looped/completed/stopped events are queued and posted at their moments; start-step table and negative index wrap; the light player honours the stop colour and forwards the step's start time. Also: advance() / step_back() cancel the pending step, rebase the clock and move the index before they run the step (once, last). Also: a per-show token cache is keyed by the token values (CACHE-17); the events list of a step is fresh per play; replace_or_advance_show keeps or advances the running instance only when it has already run a step and stands exactly at / one step before the requested step (SYNC-17); RunningShow.update applies every value that is not None (UPD-17). Also: every play parameter reaches the RunningShow under its own name on every route (Show.play, play_show_with_config, replace_or_advance_show, ShowPlayer._play/_queue, ShowConfig field order), defaults replace only None; a replaced running show is stopped on every path that starts its successor; the show player's action table and instance actions; config players change handed settings only in a private copy. Also: the show-pool pass-throughs hand every parameter on under its own name. Also: at its start a show runs its start callback (stopping the replaced show) before its first step; each key's fade-out entry has a clean-up timer of its own. Also: a show started by a condition is stopped by it under the same key, instance dict and show name.",
+             "token substitution and concurrent shows on one light are not decided. Also: played/looped/completed/stopped events are queued and posted at their moments; start-step table and negative index wrap; the light player honours the stop colour and forwards the step's start time. Also: advance() / step_back() cancel the pending step, rebase the clock and move the index before they run the step (once, last). Also: a per-show token cache is keyed by the token values (CACHE-17); the events list of a step is fresh per play; replace_or_advance_show keeps or advances the running instance only when it has already run a step and stands exactly at / one step before the requested step (SYNC-17); RunningShow.update applies every value that is not None (UPD-17). Also: every play parameter reaches the RunningShow under its own name on every route (Show.play, play_show_with_config, replace_or_advance_show, ShowPlayer._play/_queue, ShowConfig field order), defaults replace only None; a replaced running show is stopped on every path that starts its successor; the show player's action table and instance actions; config players change handed settings only in a private copy. Also: the show-pool pass-throughs hand every parameter on under its own name. Also: at its start a show runs its start callback (stopping the replaced show) before its first step; each key's fade-out entry has a clean-up timer of its own. Also: a show started by a condition is stopped by it under the same key, instance dict and show name. Also: the light's hardware-update shortcuts read the remembered fade correctly (shared with C09), so stopped shows leave the hardware as they found it.",
         technique="expression-shape and CFG dominance on the step path; loop-account guards; key-agreement between register and clear sites",
         ref="4/C17"),
     "C18": dict(
@@ -274,7 +274,7 @@ CLAIMS = {
              "against the direction, an accepted hit adds it once, completion compares >= (up) / <= (down); a sequence "
              "advances by one only for the current step, an accrual records and reports a step on its first hit; the block "
              "timeout is armed on enable/reset, cancelled on disable/complete and resets the block. The counting equation "
-             "over histories and timeout races are not decided. Also: the multiple-hit window timer is (re)started only by an accepted hit. Also: Counter.count moves the value for every hit on an enabled counter outside the multiple-hit window; delayed control events are scheduled as anonymous delays of their own. Also: a logic block forgets its state object on every unload path; delays under fixed names live on a DelayManager the block owns. Also: an explicit start_enabled (yes or no) decides, only a missing one falls back to the enable_events rule; every accepted hit opens the configured hit window (also the completing one).",
+             "over histories and timeout races are not decided. Also: the multiple-hit window timer is (re)started only by an accepted hit. Also: Counter.count moves the value for every hit on an enabled counter outside the multiple-hit window; delayed control events are scheduled as anonymous delays of their own. Also: a logic block forgets its state object on every unload path; delays under fixed names live on a DelayManager the block owns. Also: an explicit start_enabled (yes or no) decides, only a missing one falls back to the enable_events rule; every accepted hit opens the configured hit window (also the completing one). Also: after completion reset and disable each follow their own flag alone; the block's timeout is removed when its mode unloads it (F23, fixed).",
         technique="CFG guard dominance; must-pass pairing of window entry/exit; who-may-cancel a named delay; unit inference",
         ref="4/C18"),
     "C19": dict(
@@ -286,7 +286,7 @@ CLAIMS = {
              "dict/list and is recognised before pair parsing; both socket readers consume the stream only through "
              "readline() and a single readexactly(n) whose n is the integer after the byte marker of the same line, raise "
              "on end of stream and hand out commands one by one in arrival order; one command per line is sent. "
-             "Round-trip equality over all values (floats, nested JSON types) is not decided. Also: read_message strips exactly the line terminator, takes the payload branch iff the byte marker is present, hands text (and payload) to the decoder and returns every decoded command. Also: the decoded command and parameters reach the command handler unchanged (no rebinding or in-place edit in process_bcp_message, the receive loop passes them as decoded); the encoder's type dispatch and the decoder's tag dispatch are exact (one test per branch, earlier tests negated, nothing added) and every non-empty pair with a new name is decoded. Also: the JSON form is dumped with the MPF encoder and no narrowing option. Also: the JSON body is the dump itself and is loaded as it arrived (no rewriting on either side). Also: the decoder is not memoised (it hands out a dict it built: generic MEMO-0); each tagged branch converts the text once, directly to its type.",
+             "Round-trip equality over all values (floats, nested JSON types) is not decided. Also: read_message strips exactly the line terminator, takes the payload branch iff the byte marker is present, hands text (and payload) to the decoder and returns every decoded command. Also: the decoded command and parameters reach the command handler unchanged (no rebinding or in-place edit in process_bcp_message, the receive loop passes them as decoded); the encoder's type dispatch and the decoder's tag dispatch are exact (one test per branch, earlier tests negated, nothing added) and every non-empty pair with a new name is decoded. Also: the JSON form is dumped with the MPF encoder and no narrowing option. Also: the JSON body is the dump itself and is loaded as it arrived (no rewriting on either side). Also: the decoder is not memoised (it hands out a dict it built: generic MEMO-0); each tagged branch converts the text once, directly to its type. Also: the wire form of every kind of value is decided by evaluating the encoder's string expressions along every path (tag + quote(str(v), '') once; None: the tag alone; strings: encoded once), so the verdict does not depend on how the encoder spells the tagging.",
         technique="layer counting of quote/unquote calls per CFG branch; tag table agreement; stream-primitive who-may-call",
         ref="4/C19"),
     "C20": dict(
@@ -302,7 +302,7 @@ CLAIMS = {
              "service and credit-event handlers are registered and removed as a set (by handler identity); on every path "
              "of the unit computation, for every ordering of smallest coin and game price, the credit unit is bounded by "
              "both (ordering-only abstract walk) and units per game is price / unit. The pricing-table arithmetic (tier "
-             "bonuses) as such is not decided. Also: the credit-unit tiers are evaluated against the running total (TIER-1); the per-switch flags reset together (FLAG-20); both credit timers are armed with reset semantics and by every path that adds a fraction (UNIT-7); pricing settings come from the settings controller. Also: every coin through a credit switch is credited, audited and re-arms the time-outs unconditionally, audits are saved on every path; the pricing table is rebuilt from scratch. Also: the coin handlers are registered only after removing a previous registration (exposed defect F20, fixed) and every registered switch handler is remembered for removal; each audit counter is created with the first figure and added to afterwards. Also: a restarted expiry deadline of an expiring machine variable (the credit balance) is written to disk also when the value is unchanged. Also: free or paid play is decided from the live operator setting everywhere; the configured value is only the setting's default.",
+             "bonuses) as such is not decided. Also: the credit-unit tiers are evaluated against the running total (TIER-1); the per-switch flags reset together (FLAG-20); both credit timers are armed with reset semantics and by every path that adds a fraction (UNIT-7); pricing settings come from the settings controller. Also: every coin through a credit switch is credited, audited and re-arms the time-outs unconditionally, audits are saved on every path; the pricing table is rebuilt from scratch. Also: the coin handlers are registered only after removing a previous registration (exposed defect F20, fixed) and every registered switch handler is remembered for removal; each audit counter is created with the first figure and added to afterwards. Also: a restarted expiry deadline of an expiring machine variable (the credit balance) is written to disk also when the value is unchanged. Also: free or paid play is decided from the live operator setting everywhere; the configured value is only the setting's default. Also: the credit expiry is suspended and resumed on the start and the stop of the game mode itself (every way out of a game).",
         technique="classification + feasible-path bound check of every store; ordering-domain abstract walk of the unit computation; table agreement gate/price; who-may-write; unit check against the config spec",
         ref="4/C20"),
 }
